@@ -241,3 +241,12 @@ Definition forin_of (d : dump) (path : string) : list string := forin_flat (chai
 Definition incl_b (a b : list string) : bool := forallb (fun k => mem k b) a.
 Definition same_set (a b : list string) : bool := incl_b a b && incl_b b a.
 Definition forin_ok (d : dump) (x : string * list string) : bool := same_set (forin_of d (fst x)) (snd x).
+
+(* ---- Otto.Copy() and the global [eval] binding ----
+   clone.go (since 1f3ee72) takes the copy's eval intrinsic from the original's intrinsic,
+     out.eval = c.object(rt.eval)
+   and no longer reads it back by name from the copied global object, so the state st of the
+   global binding (0 a data property holding an object, 1 absent, 2 a data property holding a
+   non-object, 3 an accessor) is irrelevant: Copy() returns in every state. *)
+Definition copy_panics_model (st : Z) : bool := false.
+Definition copy_panics_spec (st : Z) : bool := false.     (* Copy() returns a runtime of the same shape *)
